@@ -6093,6 +6093,30 @@ def _sub_quantifier_list_edge_item(qlist: list, last: bool) -> tuple[fst.FST, st
     return parent, field, idx + 1 if last else idx
 
 
+def _sub_quantifier_list_arglikes_only(qlist: list, slice_: fst.FST, base: fst.FST, start: int, stop: int,
+                                       options: Mapping[str, Any]) -> None:
+    """The elements of a quantifier match on `Call.args`, `Call.keywords`, `ClassDef.bases` or `ClassDef.keywords` are
+    contiguous in their own field but not necessarily in the merged `_args` or `_bases` virtual field the slice was
+    gotten from (`f(a, k=v, *b)`). Remove from the `slice_` copy the elements which were not matched by the quantifier.
+
+    **Parameters:**
+    - `qlist`: The list of `FSTMatch` objects from the quantifier.
+    - `slice_`: The `_arglikes` slice copied from `base` from `start` to `stop`, modified in place.
+    """
+
+    arglikes = base._cached_arglikes()[start : stop]
+    matched_asts = set()
+
+    for match in qlist:
+        for matched in (matched if isinstance(matched := match.matched, list) else (matched,)):
+            if isinstance(matched, fst.FST):
+                matched_asts.add(matched.a)
+
+    for i in range(len(arglikes) - 1, -1, -1):  # from the end so that indices remain valid, the first and last elements are always matched ones
+        if arglikes[i] not in matched_asts:
+            slice_._put_slice(None, i, i + 1, 'arglikes', False, options)
+
+
 # ----------------------------------------------------------------------------------------------------------------------
 # public FST class methods
 
@@ -6867,7 +6891,12 @@ def subn(
                         assert last_field == first_field
                         assert last_idx > first_idx
 
+                        qlist = repl_slot_new
                         repl_slot_new = first_base._get_slice(first_idx, last_idx, first_field, False, copy_options)
+
+                        if first_field in ('_args', '_bases'):  # merged virtual field, elements of the other real field may lie between the matched ones
+                            _sub_quantifier_list_arglikes_only(qlist, repl_slot_new, first_base, first_idx, last_idx,
+                                                               copy_options)
 
                 elif not isinstance(repl_slot_new, str):  # str could have come from static tag
                     raise MatchError('match substitution must be FST, None or str'
